@@ -65,7 +65,7 @@ func (m *Model) classifyOp(op StoreOp) string {
 		}
 		return "takeover"
 	case "Delete":
-		if containsFn(m.StopUnits, topFunc(op.Fn)) {
+		if _, _, ok := m.stopFrame(op.Call); ok {
 			return "shutdown-delete"
 		}
 		return "unclassified-delete"
@@ -144,15 +144,16 @@ func checkC01(c *Ctx) {
 			// the guard at the point where the attempt is issued
 			var at ssa.Instruction = op.Call
 			if op.Fn != rf {
-				eachInstr(rf, func(in ssa.Instruction) {
-					if g, ok := in.(*ssa.Go); ok {
-						for _, t := range m.funcValueTargets(g.Call.Value) {
-							if t == op.Fn {
-								at = g
-							}
+				for _, sp := range m.Spawns() {
+					if topFunc(sp.Fn) != rf {
+						continue
+					}
+					for _, t := range sp.Targets {
+						if t == op.Fn || m.staticReach(t, false)[op.Fn] {
+							at = sp.At
 						}
 					}
-				})
+				}
 			}
 			claimOK := false
 			for _, l := range m.GuardsAt(at) {
@@ -223,11 +224,12 @@ func checkC01(c *Ctx) {
 		}
 		nDel++
 		fn := shortFn(op.Fn)
-		if !containsFn(m.StopUnits, op.Fn) {
+		stopFn, stopAt, inStop := m.stopFrame(op.Call)
+		if !inStop {
 			c.viol("R6", "Delete in "+fn, op.Call, "Delete is issued outside a stop unit: only the owner's graceful shutdown may delete the record")
 			continue
 		}
-		gs := m.GuardsAt(op.Call)
+		gs := m.AllGuards(op.Call, false)
 		wasLeader := false
 		for _, l := range gs {
 			if m.prevClaimLit(l, true) {
@@ -235,7 +237,7 @@ func checkC01(c *Ctx) {
 			}
 		}
 		c.check(wasLeader, "R6", "Delete only if the stop cleared a standing claim in "+fn, op.Call, "guards %s", fmtLits(gs))
-		clear := m.clearPoint(op.Fn, op.Call)
+		clear := m.clearPoint(stopFn, stopAt)
 		c.check(clear != nil, "R6", "claim cleared before Delete in "+fn, op.Call, "a claim Store(false) (or a call of a function that always clears the claim) dominates the Delete: %v", clear != nil)
 		// ownership verdict
 		var verdict *ssa.Call
@@ -255,18 +257,25 @@ func checkC01(c *Ctx) {
 			okTok := false
 			for _, a := range verdict.Call.Args[1:] {
 				o := m.Origins(a)
-				if o["field:"+m.Token] {
-					// find the load and check it is under the write lock before the clear
-					if call, ok := a.(*ssa.Call); ok && la.MustBefore(call)[m.implMuW()] && clear != nil && dominatesInstr(call, clear) {
-						okTok = true
+				if !o["field:"+m.Token] {
+					continue
+				}
+				// every load of the token field feeding the argument is made under the write
+				// lock, in the stop unit, before the claim is cleared
+				loads := m.OriginLoads(a)
+				okTok = len(loads) > 0 && clear != nil
+				for _, ld := range loads {
+					if !la.MustBefore(ld)[m.implMuW()] || ld.Parent() != stopFn || !dominatesInstr(ld, clear) {
+						okTok = false
 					}
 				}
 			}
 			c.check(okTok, "R6", "ownership verdict compares the term token read in the clearing section in "+fn, verdict, "token argument read under the write lock before the claim clear: %v", okTok)
 			// after the wait: a blocking select dominates the verdict
 			var wait ssa.Instruction
-			eachInstr(op.Fn, func(in ssa.Instruction) {
-				if s, ok := in.(*ssa.Select); ok && s.Blocking && dominatesInstr(in, verdict) {
+			vfn, vat, _ := m.stopFrame(verdict)
+			eachInstr(vfn, func(in ssa.Instruction) {
+				if s, ok := in.(*ssa.Select); ok && s.Blocking && dominatesInstr(in, vat) {
 					wait = in
 				}
 			})
